@@ -20,7 +20,7 @@ pub fn plan() -> Plan {
         meta: Meta {
             property: "C06",
             level: "fault_enumeration",
-            rule: "(a) power-loss model: a history runs with the I/O tap recording every create/write(payload)/sync/rename/remove; for each crash point (after tap event i; quick: sampled incl. every event next to a sync/create, thorough: every event) directory states are built: each file = the bytes written up to i cut at a length L with synced_len <= L <= written_len; for one chosen file every interesting L of its un-synced tail (record/field boundaries +-1, random; thorough: every byte), the other files at {synced-only, full}. The REAL init runs on the installed state (data validation on/off, corrupted blobs ignored/quarantined). Oracle: init returns Ok and a following write+read works, and a process-kill image taken after that write (worker quiescent, nothing closed) opened elsewhere answers like the live session (always with ignore_corrupted, every third state otherwise); every blob whose file and index file were fully synced before i is served in full; for every other blob the served records are a prefix (length = its record count reported by the storage) of the records written to it before i, or the file sits byte-identical in corrupted/ (in place and unserved with ignore_corrupted); the whole query surface equals the reference model built from those per-blob prefixes, i.e. bytes are correct and nothing is served that was never written. (b) real SIGKILL of a child process doing a write-heavy history (see observed.kill_*): init Ok; every acknowledged record is served or is recovered by tools::recovery_blob from the quarantined file; writes made after recovery survive two further restarts. One cut in ten is additionally installed as a zero-filled tail (outside the stated model: observed and counted in observations_zero_fill_*, never judged). Non-trivial = crash state with a torn or missing un-synced suffix in at least one file, or a kill that landed mid-operation; distinct = hash(history, crash point, cuts).",
+            rule: "(a) power-loss model: a history runs with the I/O tap recording every create/write(payload)/sync/rename/remove; for each crash point (after tap event i; quick: sampled incl. every event next to a sync/create, thorough: every event) directory states are built: each file = the bytes written up to i cut at a length L with synced_len <= L <= written_len; for one chosen file every interesting L of its un-synced tail (record/field boundaries +-1, random; thorough: every byte), the other files at {synced-only, full}. The REAL init runs on the installed state (data validation on/off, corrupted blobs ignored/quarantined). Oracle: init returns Ok and a following write+read works, and a process-kill image taken after that write (worker quiescent, nothing closed) opened elsewhere answers like the live session (always with ignore_corrupted, every third state otherwise); every blob whose file and index file were fully synced before i is served in full; for every other blob the served records are a prefix (length = its record count reported by the storage) of the records written to it before i, or the file sits byte-identical in corrupted/ (in place and unserved with ignore_corrupted); the whole query surface equals the reference model built from those per-blob prefixes, i.e. bytes are correct and nothing is served that was never written. (b) real SIGKILL of a child process doing a write-heavy history (see observed.kill_*): init Ok; every acknowledged record is served or is recovered by tools::recovery_blob from the quarantined file; writes made after recovery survive two further restarts. One cut in ten is additionally installed as a zero-filled tail (the file keeps its length, the lost suffix reads as zeros): for these states only 'init returns Ok' is judged; what is served afterwards is observed and counted in observations_zero_fill_*, not judged (the data clauses are quantified over truncation lengths). Non-trivial = crash state with a torn or missing un-synced suffix in at least one file, or a kill that landed mid-operation; distinct = hash(history, crash point, cuts).",
             assumptions: vec!["power-loss model: per-file suffix truncation beyond the last completed sync; directory operations (create, rename, remove) atomic and durable", "literal reading of the statement: any prefix is acceptable for a blob that was not fully synced", "verdict holds for the crash states generated for this seed"],
         },
         shards: 16,
@@ -458,8 +458,8 @@ fn eval_history<const N: usize>(ctx: &Ctx, sh: &mut Shard, rng: &mut Rng, cfg: &
                 for others_full in [true, false] {
                     let mut cuts = BTreeMap::new();
                     cuts.insert(p.clone(), l);
-                    // one cut in ten also as a zero-filled tail. The property quantifies over truncation lengths, so
-                    // these states are observed and counted, never judged (see `observations_zero_fill_*`)
+                    // one cut in ten also as a zero-filled tail: "init succeeds" is judged, the served data is only
+                    // observed (see `observations_zero_fill_*`): the data clauses quantify over truncation lengths
                     let zero_fill = l < c.len() as u64 && rng.chance(1, 10);
                     if zero_fill {
                         states.push(CrashState { point, cuts: cuts.clone(), others_full, zero_fill: true });
@@ -515,10 +515,20 @@ fn eval_history<const N: usize>(ctx: &Ctx, sh: &mut Shard, rng: &mut Rng, cfg: &
                         sh.sample(json!({"history": history_short(ops), "crash_after_event": point, "cuts": cuts_desc, "others": if cs.others_full { "full" } else { "synced-only" }, "outcome": out.class}));
                     }
                     if let Some((sig, detail)) = out.violation {
-                        if cs.zero_fill {
-                            // outside the stated crash model: recorded as an observation only
+                        let zf_init_failed = cs.zero_fill && sig.starts_with("init-failed");
+                        if zf_init_failed {
+                            // "init succeeds" is judged for zero-filled tails too (a torn suffix in the wording of the
+                            // statement). One class is a listed finding: a blob header whose magic reached the disk and
+                            // whose version field reads as zeros looks like a blob of format version 0
+                            let header_cut = cs.cuts.iter().next().map(|(p, l)| ext_of(p) == "blob" && *l >= 4 && *l < 20).unwrap_or(false);
+                            let sig2 = if header_cut { "zero-filled-tail/init-failed/blob-header-magic-intact-version-zero" } else { "zero-filled-tail/init-failed" };
+                            sh.violation(&ctx.known, "C06", ctx.seed, &format!("C06/{}", sig2), &format!("crash after event {} cuts {:?} (lost suffix zero-filled) others_full={}: {}", point, cuts_desc, cs.others_full, detail), replay);
+                        } else if cs.zero_fill {
+                            // the data clauses are quantified over truncation lengths: recorded as an observation only
                             let class = sig.split('/').next().unwrap_or("other").to_string();
                             sh.add(&format!("observations_zero_fill_{}", class), 1);
+                            let region = cs.cuts.iter().next().map(|(p, l)| format!("{}{}", ext_of(p), if ext_of(p) == "blob" && *l < 20 { "-header" } else { "" })).unwrap_or_default();
+                            sh.add(&format!("observations_zero_fill_{}_{}", class, region), 1);
                             if ctx.shard == 0 && sh.notes.len() < 2 {
                                 sh.notes.push(format!("observation (zero-filled tail, not judged): {}: {}", sig, detail.chars().take(200).collect::<String>()));
                             }
@@ -527,7 +537,13 @@ fn eval_history<const N: usize>(ctx: &Ctx, sh: &mut Shard, rng: &mut Rng, cfg: &
                         }
                     }
                 }
-                Err(_) if cs.zero_fill => sh.add("observations_zero_fill_panic", 1),
+                Err(p) if cs.zero_fill => {
+                    sh.add("observations_zero_fill_panic", 1);
+                    let region = cs.cuts.iter().next().map(|(p, l)| format!("{}@{}", p.file_name().map(|x| x.to_string_lossy().to_string()).unwrap_or_default(), l)).unwrap_or_default();
+                    if sh.notes.len() < 4 {
+                        sh.notes.push(format!("observation (zero-filled tail, not judged): panic with {}: {}", region, p.chars().take(160).collect::<String>()));
+                    }
+                }
                 Err(p) => {
                     let short: String = p.chars().take(100).collect();
                     sh.violation(&ctx.known, "C06", ctx.seed, "C06/panic-at-recovery", &format!("crash after event {} cuts {:?}: panic {}", point, cuts_desc, short), replay);
